@@ -60,9 +60,8 @@ def verdict(chk, run, tier, seed):
             failing.append((dv["case"], dv["table"], dv["orm"], "fresh-process-differs", {"distinct_outputs": dv["distinct_outputs"]}))
     known_hits, unexplained = {k: 0 for k in open_ids}, []
     for (case, table, orm, kind, detail) in failing:
-        if orm in ("sqlalchemy", "sqlmodel") and "C18-datetime-import-order" in open_ids and cls(case, table, "datetime"):
-            known_hits["C18-datetime-import-order"] += 1
-        elif orm == "seaorm" and kind == "slice-permutation-differs" and "C18-seaorm-slice-order" in open_ids and cls(case, table, "slice_order"):
+        # Python ORMs: both import blocks are proved oracle free for all tables — any disagreement is a violation
+        if orm == "seaorm" and kind == "slice-permutation-differs" and "C18-seaorm-slice-order" in open_ids and cls(case, table, "slice_order"):
             known_hits["C18-seaorm-slice-order"] += 1
         else:
             unexplained.append((case, table, orm, kind, detail))
@@ -99,15 +98,16 @@ def verdict(chk, run, tier, seed):
                                                 "undischarged": len(sites.get("undischarged_hash", [])), "stale": sites.get("stale_hash")}}
     in_known = sum(1 for o in obs for j, _ in enumerate(o["tables"]) if cls(o["idx"], j, "datetime"))
     in_slice = sum(1 for o in obs for j, _ in enumerate(o["tables"]) if cls(o["idx"], j, "slice_order"))
-    chk.cov["theorem_coverage"] = {"tables": n_tables, "outside_known_C18_datetime (imports_oracle_free_outside_known applies)": n_tables - in_known,
-                                   "inside_known_C18_datetime": in_known, "inside_known_C18_slice_order": in_slice,
+    chk.cov["theorem_coverage"] = {"tables": n_tables, "imports_oracle_free applies (no hypothesis)": n_tables,
+                                   "tables in the class of the fixed finding C18-datetime-import-order (>= 2 date/time kinds), all reproducible": in_known,
+                                   "inside_known_C18_slice_order": in_slice,
                                    "oracle_failures": len(failing), "classified_known": known_hits, "unexplained": len(unexplained)}
     chk.cov["cached_run"] = {"exp": exp.get("cached"), "procs": procs.get("cached")}
 
 
 def run(tier, seed):
     chk = vflib.Check(PROP, tier, seed)
-    chk.assumptions = ["model = coq/exp/Model/Imports.v (import-line computation with a permutation oracle for every iterated HashSet) and Model/Names.v (SeaORM declarations); tie = K-exp evaluated inside Coq on every rendered table",
+    chk.assumptions = ["model = coq/exp/Model/Imports.v (import-line computation with a permutation oracle for every iterated HashSet; every collected set is sorted byte-wise before use) and Model/Names.v (SeaORM declarations); tie = K-exp evaluated inside Coq on every rendered table",
                        "HashSites inventory (tools/hashsites.py, syntactic) is regenerated from /repo on every run and compared inside Coq with the tagged allow-list coq/exp/Model/SiteTables.v",
                        "the fresh-process / repeated / permuted renders are a test (O-C18), not a proof; `seaorm_oracle_free` is stated on the three observations (contains, len, get) the SeaORM code makes, not on the whole renderer"]
     chk.cov["trusted_base"] = vflib.TRUSTED_COMMON + [
